@@ -46,9 +46,15 @@
        with it; a later nested loop finds the root blocked only with the option (traces differ;
        outcomes Ok 100 with the option, Err FutureIsAlreadyComputed without).  The witness violates
        the hypothesis of (a) in both runs and contains a re-entrant resume (cxr_not_guarded).
-   NOT PROVED: that runs without re-entrant resumes (no_reentry in MachineKeep.v) satisfy the hypothesis
-   of (a) - it would make (a) unconditional for everything CPython can execute; a static criterion on
-   programs; anything about options other than KEEP_DEPENDENCIES (correspondence only). *)
+   (f) C20_keep_dependencies_inert_without_reentry (+ ..._preserves_success_without_reentry): the
+       hypothesis of (a) holds on every history WITHOUT a re-entrant resume (hist_guarded no_reentry:
+       no configuration "resume t" while a frame "body of t inside value()" is on the stack; decidable,
+       checked on one run).  So KEEP_DEPENDENCIES is inert - same outcomes, same trace, for every
+       program, history, oracle and fuel - on everything CPython can execute; the only runs of the
+       machine excluded are those using the artifact of (e).
+   NOT PROVED: a static criterion on programs excluding re-entrancy (tree programs do, by C01/C03, but
+   that is not connected here); anything about options other than KEEP_DEPENDENCIES (correspondence
+   only). *)
 From Asynq Require Import Machine Seq proofs.MachineC08 proofs.MachineC01 proofs.MachineC20 proofs.MachineSteps
   proofs.MachineKeep.
 
@@ -101,6 +107,19 @@ Theorem C20_keep_dependencies_one_step : forall P P' c c',
   sim (step P c) (step P' c').
 Proof. exact sim_step. Qed.
 Print Assumptions C20_keep_dependencies_one_step.
+
+(* no_reentry c : c is not "about to resume t (mode MResume t) while a frame FValue t _ is on the stack". *)
+Theorem C20_keep_dependencies_inert_without_reentry : forall P P' fuel ps,
+  same_but_keep P P' -> hist_guarded no_reentry P fuel ps (st0 P) = true ->
+  run_case P fuel ps = run_case P' fuel ps.
+Proof. exact keep_inert_no_reentry. Qed.
+Print Assumptions C20_keep_dependencies_inert_without_reentry.
+
+Theorem C20_keep_dependencies_preserves_success_without_reentry : forall P P' fuel ps os e,
+  same_but_keep P P' -> hist_guarded no_reentry P fuel ps (st0 P) = true ->
+  fst (run_case P fuel ps) = os -> ~ In (Some (Err e)) os -> ~ In (Some (Err e)) (fst (run_case P' fuel ps)).
+Proof. exact keep_preserves_success_no_reentry. Qed.
+Print Assumptions C20_keep_dependencies_preserves_success_without_reentry.
 
 (* the program that refuted the first version, on the repaired model *)
 Theorem C20_first_witness_repaired :
